@@ -95,13 +95,21 @@ fn reference<const N: usize>(state: &StripBytes, buf: &[u8; N], n: usize) -> (Si
 
 macro_rules! write_case {
     ($name:ident, $prefix:expr, $n:expr, $u:literal) => {
+        write_case!($name, $prefix, $n, $u, false);
+    };
+    ($name:ident, $prefix:expr, $n:expr, $u:literal, $two:expr) => {
         /// One `write` of `$n` symbolic bytes from the state carried after the (concrete)
         /// prefix `$prefix`; symbolic accept sizes, one injected error at a symbolic call.
         #[kani::proof]
         #[kani::unwind($u)]
         fn $name() {
+            const TWO_RUNS: bool = $two;
             let prefix: &[u8] = $prefix;
             let buf: [u8; $n] = kani::any();
+            if $n == 3 && TWO_RUNS {
+                // shape "text, non-whitespace C0 control, text": two printable runs in one call
+                kani::assume(buf[1] < 0x20 && !matches!(buf[1], 0x09 | 0x0A | 0x0C | 0x0D));
+            }
             let accept: [usize; 4] = kani::any();
             // accept sizes {0, 1, 2, 3, everything}
             kani::assume(accept[0] <= 3 || accept[0] == usize::MAX);
@@ -197,6 +205,7 @@ write_case!(write_2_osc, b"\x1b]", 2, 5);
 write_case!(write_2_utf8_1, b"\xe2", 2, 5);
 write_case!(write_2_utf8_2, b"\xf0\x9f", 2, 5);
 write_case!(write_3_ground, b"", 3, 6);
+write_case!(write_3_two_runs, b"", 3, 6, true);
 write_case!(write_3_csi, b"\x1b[", 3, 6);
 
 macro_rules! write_all_case {
